@@ -572,6 +572,7 @@ def lower_append_array_at(context, builder, sig, args):
     atval = ak._connect._numba.layout.regularize_atval(
         context, builder, viewproxy, attype, atval, True, True
     )
+    atval = builder.add(viewproxy.start, atval)
     atval = ak._connect._numba.castint(context, builder, numba.intp, numba.int64, atval)
 
     sharedptr = ak._connect._numba.layout.getat(
@@ -622,7 +623,11 @@ def lower_append_record(context, builder, sig, args):
         builder, recordviewtype.arrayviewtype, recordviewproxy.arrayview
     )
     atval = ak._connect._numba.castint(
-        context, builder, numba.intp, numba.int64, recordviewproxy.at
+        context,
+        builder,
+        numba.intp,
+        numba.int64,
+        builder.add(arrayviewproxy.start, recordviewproxy.at),
     )
 
     sharedptr = ak._connect._numba.layout.getat(
